@@ -5057,8 +5057,13 @@ impl<'a, 'graph> Builder<'a, 'graph> {
           }
           let base_url = self.jsr_url_provider.package_url(nv);
           let export_name = resolution_item.nv_ref.export_name();
-          match version_info.export(&export_name) {
-            Some(export_value) => {
+          // an export value that cannot be joined onto the package url is
+          // as good as a missing export
+          match version_info
+            .export(&export_name)
+            .and_then(|v| base_url.join(v).ok().map(|s| (v, s)))
+          {
+            Some((export_value, specifier)) => {
               self.graph.packages.add_export(
                 nv,
                 (
@@ -5070,7 +5075,6 @@ impl<'a, 'graph> Builder<'a, 'graph> {
                 self.graph.packages.add_top_level_package(nv.clone());
               }
 
-              let specifier = base_url.join(export_value).unwrap();
               self
                 .graph
                 .redirects
